@@ -95,8 +95,13 @@ ResAddField(st, op) == \* AddAttr / AddRel: Type.AddAttr / Type.AddRel semantics
 ResSetSrc(st, op) ==
     [post |-> [st EXCEPT !.srcs[op.src].vals[op.name] = op.val], ret |-> "ok"]
 
+\* two SetType calls in a row, nothing read in between (one step of the driver, two of the model):
+\* first the type op.mid, then the type op.typ
+ResSetTypeTwice(st, op) == ResSetType(ResSetType(st, [op EXCEPT !.typ = op.mid]).post, op)
+
 Res(st, op) ==
     CASE op.op = "SetType" -> ResSetType(st, op)
+      [] op.op = "SetTypeTwice" -> ResSetTypeTwice(st, op)
       [] op.op = "Add"     -> ResAdd(st, op)
       [] op.op = "Remove"  -> ResRemove(st, op)
       [] op.op \in {"AddAttr", "AddRel"} -> ResAddField(st, op)
@@ -118,6 +123,10 @@ CrossKind(st, op) ==
         {f \in DOMAIN src.fields \cap DOMAIN st.ctype.fields : src.fields[f].kind # st.ctype.fields[f].kind}
     ELSE IF op.op = "SetType" THEN   \* a field that changes from attribute to relationship or back
         {f \in DOMAIN op.typ.fields \cap DOMAIN st.ctype.fields : op.typ.fields[f].kind # st.ctype.fields[f].kind}
+    ELSE IF op.op = "SetTypeTwice" THEN
+        {f \in DOMAIN op.mid.fields \cap DOMAIN st.ctype.fields : op.mid.fields[f].kind # st.ctype.fields[f].kind}
+        \cup {f \in DOMAIN op.typ.fields \cap DOMAIN op.mid.fields : op.typ.fields[f].kind # op.mid.fields[f].kind}
+        \cup {f \in DOMAIN op.typ.fields \cap DOMAIN st.ctype.fields : op.typ.fields[f].kind # st.ctype.fields[f].kind}
     ELSE {}
 NoVal0 == [nil |-> FALSE, r |-> 0, ids |-> <<>>]
 MaskItem(it, X) == [it EXCEPT !.vals = [f \in DOMAIN it.vals |-> IF f \in X THEN NoVal0 ELSE it.vals[f]]]
